@@ -313,11 +313,11 @@ func init() {
 		return w.newErr(a[0].(StringV), nil)
 	})
 	reg("fmt.Errorf", func(w *Worker, fr *frame, a []Value, fn *ssa.Function) Value {
-		msg, wrapped := w.sprintf(a[0].(StringV), a[1].(SliceV))
+		msg, wrapped := w.sprintf(fr, a[0].(StringV), a[1].(SliceV))
 		return w.newErr(msg, wrapped)
 	})
 	reg("fmt.Sprintf", func(w *Worker, fr *frame, a []Value, fn *ssa.Function) Value {
-		msg, _ := w.sprintf(a[0].(StringV), a[1].(SliceV))
+		msg, _ := w.sprintf(fr, a[0].(StringV), a[1].(SliceV))
 		return msg
 	})
 	reg("fmt.Sprint", func(w *Worker, fr *frame, a []Value, fn *ssa.Function) Value {
@@ -454,7 +454,7 @@ func (w *Worker) bytesEqual(x, y SliceV) *Term {
 
 // sprintf: supports %s %v %x %d %q %w on the value kinds that matter; anything
 // else yields an opaque string.
-func (w *Worker) sprintf(format StringV, args SliceV) (StringV, *IfaceV) {
+func (w *Worker) sprintf(fr *frame, format StringV, args SliceV) (StringV, *IfaceV) {
 	f, ok := format.Concrete()
 	if !ok {
 		return StringV{Opaque: w.newID()}, nil
@@ -503,6 +503,9 @@ func (w *Worker) sprintf(format StringV, args SliceV) (StringV, *IfaceV) {
 			wrapped = &vv
 		}
 		s, ok := w.formatValue(v, verb)
+		if !ok && fmtStringerHook != nil && (verb == 's' || verb == 'v') {
+			s, ok = fmtStringerHook(w, fr, v)
+		}
 		if !ok {
 			opaque = true
 			continue
@@ -514,6 +517,10 @@ func (w *Worker) sprintf(format StringV, args SliceV) (StringV, *IfaceV) {
 	}
 	return out, wrapped
 }
+
+// fmtStringerHook: %s/%v of a value whose dynamic type has a String()/Error()
+// method with an SSA body (set by intr_C15.go).
+var fmtStringerHook func(w *Worker, fr *frame, v IfaceV) (StringV, bool)
 
 func (w *Worker) formatValue(v IfaceV, verb byte) (StringV, bool) {
 	if v.T == nil {
